@@ -129,8 +129,10 @@ def expect(case, octal_zero=True):
        ('exc', {allowed class names}, reason) or ('ok', spans, values)"""
     if case['typ'] not in INT_TYPES:
         return ('exc', {'ModelError'}, 'not_integer_typed')
-    if case['values'] is None:
+    if case['values'] is None and not case.get('values_null'):
         return ('exc', {'ValueError'}, 'no_values_qualifier')
+    if case.get('values_null') or case.get('valuemap_null'):
+        return ('exc', {'ModelError', 'ValueError'}, 'null_qualifier_value')
     values = list(case['values'])
     vmap = case['valuemap']
     if vmap is None:
@@ -182,15 +184,6 @@ def out_str(o):
     return common.from_cps(o)
 
 
-def scan_points(case):
-    """(v, outcome) pairs of a real result"""
-    return None
-
-
-def input_class(case, why):
-    return why
-
-
 def oracle(run, case, real):
     """evaluate the property on the REAL outputs.  Violations carry a precise signature."""
     exp = expect(case)
@@ -216,7 +209,9 @@ def oracle(run, case, real):
     got_items = [(norm_bin(b), common.from_cps(s)) for b, s in r['items']]
     want_items = [(None if s is None else (s[0], s[1]), values[i]) for i, s in enumerate(spans)]
     if got_items != want_items:
-        run.violate({'kind': 'items_not_entries_in_qualifier_order',
+        same_strings = [s for _, s in got_items] == [s for _, s in want_items]
+        run.violate({'kind': 'items_wrong_resolved_value_or_range' if same_strings
+                     else 'items_not_entries_in_qualifier_order',
                      'dup_values': len(set(values)) != len(values)}, case,
                     {'items': [[list(b) if b else None, s] for b, s in got_items],
                      'expected': [[list(b) if b else None, s] for b, s in want_items]})
@@ -278,13 +273,13 @@ def oracle(run, case, real):
 def build_class(case):
     import pywbem
     quals = {}
-    if case['values'] is not None:
-        quals['Values'] = case['values']
-    if case['valuemap'] is not None:
-        quals['ValueMap'] = case['valuemap']
+    if case['values'] is not None or case.get('values_null'):
+        quals['Values'] = None if case.get('values_null') else case['values']
+    if case['valuemap'] is not None or case.get('valuemap_null'):
+        quals['ValueMap'] = None if case.get('valuemap_null') else case['valuemap']
 
     def q():
-        return {k: pywbem.CIMQualifier(k, list(v), type='string') for k, v in quals.items()}
+        return {k: pywbem.CIMQualifier(k, None if v is None else list(v), type='string') for k, v in quals.items()}
     typ, arr = case['typ'], case['is_array']
     props, meths = {}, {}
     if case['kind'] == 'property':
@@ -317,9 +312,13 @@ def mof_safe(case):
 
 def build_mof(case):
     ql = []
-    if case['valuemap'] is not None:
+    if case.get('valuemap_null'):
+        ql.append('ValueMap')
+    elif case['valuemap'] is not None:
         ql.append('ValueMap{%s}' % ', '.join(mof_string(s) for s in case['valuemap']))
-    if case['values'] is not None:
+    if case.get('values_null'):
+        ql.append('Values')
+    elif case['values'] is not None:
         ql.append('Values{%s}' % ', '.join(mof_string(s) for s in case['values']))
     qs = ('[%s] ' % ', '.join(ql)) if ql else ''
     typ = case['typ']
@@ -615,7 +614,14 @@ def gen_case(rng, thorough, stats=None):
     vd = None
     if rng.random() < (0.6 if values is not None and nv != n else 0.15):
         vd = rng.choice(['dflt', '', 'v0', 'Unknown'])
+    values_null = valuemap_null = False
+    if rng.random() < 0.015:                      # NULL-valued qualifier (known finding C20-KF2)
+        if rng.random() < 0.5:
+            values_null, values = True, None
+        else:
+            valuemap_null, vmap = True, None
     case = {'kind': kind, 'typ': typ, 'is_array': is_array, 'values': values, 'valuemap': vmap, 'vd': vd,
+            'values_null': values_null, 'valuemap_null': valuemap_null,
             'server': rng.random() < 0.2, 'ns_none': rng.random() < 0.2, 'pass_vd_none': rng.random() < 0.3,
             'via': 'objects', 'scan': None, 'vs': [], 'strs': []}
     # probes
@@ -648,6 +654,7 @@ def model_request(case):
     return {'op': 'vm', 'typ': case['typ'],
             'values': None if case['values'] is None else [common.cps(s) for s in case['values']],
             'valuemap': None if case['valuemap'] is None else [common.cps(s) for s in case['valuemap']],
+            'values_null': bool(case.get('values_null')), 'valuemap_null': bool(case.get('valuemap_null')),
             'vd': None if case['vd'] is None else common.cps(case['vd']),
             'vs': [str(v) for v in case['vs']], 'scan': case['scan'],
             'strs': [common.cps(s) for s in case['strs']]}
@@ -746,7 +753,7 @@ def intlit_check(run):
 # ----------------------------------------------------------------------------- run / search / replay
 
 def check_case(run, case, real, side, ans, stats):
-    run.case({k: case[k] for k in ('kind', 'typ', 'values', 'valuemap', 'vd')},
+    run.case({k: case.get(k) for k in ('kind', 'typ', 'values', 'valuemap', 'vd', 'values_null', 'valuemap_null')},
              nontrivial=bool(case['valuemap']) and len(case['valuemap']) >= 2)
     for s in stats:
         run.count(s)
@@ -764,7 +771,9 @@ def check_case(run, case, real, side, ans, stats):
             run.disagree(case, m, real, 'ValueMapping construction/items/tovalues/tobinary')
         # the short spec, run by the same driver, must agree with the model (theorem-backed; cheap cross-check)
         sp = ans.get('spec', {})
-        if 'exc' in m:
+        if case.get('values_null') or case.get('valuemap_null'):
+            pass        # the spec has no NULL-valued qualifiers (C20-KF2); only model vs code is compared
+        elif 'exc' in m:
             if sp.get('exc') != m['exc']:
                 run.disagree(case, m, sp, 'model vs spec (exception class)')
         elif 'ok' in m and m['ok'] is not None:
@@ -810,7 +819,8 @@ def run(run):
     run.assumptions += [
         'ValueMap arrays shorter than the Python recursion limit (~1000 consecutive open ranges would exhaust it)',
         'integer literals shorter than 4300 digits (CPython int() conversion limit)',
-        'Values/ValueMap qualifier values are arrays of strings (NULL qualifier values are outside the quantifier)',
+        'array elements of the Values/ValueMap qualifier values are strings (a NULL element is not generated); NULL '
+        'qualifier VALUES are generated and modelled (createQ), see known finding C20-KF2',
     ]
     cases, statss = [], []
     for _ in range(n):
